@@ -7,9 +7,11 @@
    bytes of [text].  PATH_SAFE is the table regenerated from request.py (Gen/C13_tables.v). *)
 From Coq Require Import NArith List Bool String.
 Require Import Webob.Lib.Val Webob.Lib.PyStr Webob.Lib.C13_Utf8 Webob.Gen.C13_tables
-               Webob.Model.C13_urlsplit Webob.Model.C13_urlpath Webob.Spec.C13_spec
+               Webob.Model.C13_urlsplit Webob.Model.C13_urlpath Webob.Model.C13_urljoin Webob.Spec.C13_spec
+               Webob.Spec.C13_rfc3986 Webob.Spec.C13_refdomain
                Webob.Proofs.C13_utf8 Webob.Proofs.C13_quote Webob.Proofs.C13_host Webob.Proofs.C13_blank
-               Webob.Proofs.C13_pop Webob.Proofs.C13_refuted.
+               Webob.Proofs.C13_pop Webob.Proofs.C13_refuted Webob.Proofs.C13_segs Webob.Proofs.C13_relurl
+               Webob.Proofs.C13_relurl_refuted.
 Import ListNotations.
 Local Open Scope N_scope.
 
@@ -177,3 +179,72 @@ Example C13_pop_example :
   seg [47; 47; 97; 233; 47; 98] = [97; 233] /\
   path_info_pop None e = Ok (Some [97; 233], mkEnv s_http None (H "68"%string) s_80 (Some (H "2f732f2f61c3a9"%string)) (H "2f62"%string) None Utf8).
 Proof. cbv zeta. repeat split; reflexivity. Qed.
+
+(* ---- relative_url agrees with RFC 3986 section 5.2 resolution against path_url (application_url + "/" for
+        to_application).  [rfc3986_resolve] (Spec/C13_rfc3986.v) is transcribed from the RFC: appendix B parsing,
+        5.2.2 transform (strict), 5.2.3 merge, 5.2.4 remove_dot_segments as the input/output-buffer loop, 5.3
+        recomposition.  [urljoin] / [relative_url] (Model/C13_urljoin.v) mirror urllib.parse and webob.
+        Domain: [ref_ok other] (Spec/C13_refdomain.v, a boolean): visible ASCII, no scheme, no authority, a "?" or
+        "#" is followed by something, no empty inner path segment, no ';' in the last path segment; the request:
+        scheme http/https, non-empty host, and [path_shape_ok] of the base path (no empty inner segment, no ';' in
+        its last segment). *)
+Theorem C13_urljoin_rfc3986 : forall v6ok sch netloc P,
+  sch = s_http \/ sch = s_https -> netloc <> [] ->
+  forallb netloc_char netloc = true -> netloc_bad v6ok netloc = false ->
+  forallb path_char P = true -> rooted P -> path_shape_ok P = true ->
+  forall r, ref_ok r = true ->
+  urljoin v6ok (sch ++ s_css ++ netloc ++ P) r = JOk (rfc3986_resolve (sch ++ s_css ++ netloc ++ P) r).
+Proof. exact urljoin_rfc. Qed.
+Print Assumptions C13_urljoin_rfc3986.
+
+(* the base really is path_url / application_url with a trailing slash *)
+Theorem C13_relative_url_base : forall v6ok e h p st pt,
+  host_view v6ok e h p -> hs_text h <> [] ->
+  encode (e_enc e) st = Ok (raw_script e) -> encode (e_enc e) pt = Ok (e_path e) ->
+  forall to_app : bool,
+  (if to_app then a <- application_url e ;; Ok (if ends_with_slash a then a else a ++ [47]) else path_url e)
+  = Ok (host_url e ++ rel_base_path e to_app).
+Proof. exact ru_base. Qed.
+Print Assumptions C13_relative_url_base.
+
+Theorem C13_relative_url_rfc3986 : forall v6ok e h p st pt,
+  host_view v6ok e h p -> e_scheme e = s_http \/ e_scheme e = s_https -> hs_text h <> [] ->
+  encode (e_enc e) st = Ok (raw_script e) -> encode (e_enc e) pt = Ok (e_path e) -> rooted (st ++ pt) ->
+  forall (other : str) (to_app : bool),
+  path_shape_ok (rel_base_path e to_app) = true -> ref_ok other = true ->
+  relative_url v6ok e other to_app = ROk (rfc3986_resolve (host_url e ++ rel_base_path e to_app) other).
+Proof. exact relative_url_rfc. Qed.
+Print Assumptions C13_relative_url_rfc3986.
+
+(* the domain contains "", "../", "./", "?q", "#f", "/abs", "g;x=1/../y", "../../g?y=/../z#s/../t", ".", "..",
+   "g/", "/", "/../a./.b" *)
+Example C13_ref_ok_inhabited :
+  forallb ref_ok
+    [ []; H "2e2e2f"%string; H "2e2f"%string; H "3f71"%string; H "2366"%string; H "2f616273"%string;
+      H "673b783d312f2e2e2f79"%string; H "2e2e2f2e2e2f673f793d2f2e2e2f7a23732f2e2e2f74"%string;
+      H "2e"%string; H "2e2e"%string; H "672f"%string; H "2f"%string; H "2f2e2e2f612e2f2e62"%string ] = true.
+Proof. exact ref_ok_examples. Qed.
+
+Example C13_relative_url_example :
+  relative_url (fun _ => true) req_a (H "673b783d312f2e2e2f79"%string) false = ROk (H "687474703a2f2f682f79"%string) /\
+  rfc3986_resolve base_a (H "673b783d312f2e2e2f79"%string) = H "687474703a2f2f682f79"%string.
+Proof. exact relurl_example. Qed.
+
+(* outside [ref_ok] the equality fails, on the model exactly as on the implementation: one witness per class of
+   deviation of the stdlib (request http://h/a; the relative_url findings); the references are, in this order,
+   ? , g//h , //g/a/../b , // , .;x *)
+Theorem C13_relative_url_empty_component_refuted : deviates (H "3f"%string).
+Proof. exact dev_empty_component. Qed.
+Print Assumptions C13_relative_url_empty_component_refuted.
+Theorem C13_relative_url_empty_segments_refuted : deviates (H "672f2f68"%string).
+Proof. exact dev_empty_segments. Qed.
+Print Assumptions C13_relative_url_empty_segments_refuted.
+Theorem C13_relative_url_absolute_reference_refuted : deviates (H "2f2f672f612f2e2e2f62"%string).
+Proof. exact dev_absolute_reference. Qed.
+Print Assumptions C13_relative_url_absolute_reference_refuted.
+Theorem C13_relative_url_empty_authority_refuted : deviates (H "2f2f"%string).
+Proof. exact dev_empty_authority. Qed.
+Print Assumptions C13_relative_url_empty_authority_refuted.
+Theorem C13_relative_url_dot_with_params_refuted : deviates (H "2e3b78"%string).
+Proof. exact dev_dot_with_params. Qed.
+Print Assumptions C13_relative_url_dot_with_params_refuted.
